@@ -9,8 +9,8 @@ from props import base
 from props.base import Context  # noqa: F401
 
 PID = 'C08'
-TIE_MODULES = ['DiffxVerif.Tie.Sections']
-NEEDS = ['sections', 'options', 'text']
+TIE_MODULES = ['DiffxVerif.Tie.Sections', 'DiffxVerif.Tie.RegexReader']
+NEEDS = ['sections', 'options', 'text', 're_reader']
 ASSUMPTIONS = [
     'CPython codecs / json are environment; their exceptions are mapped to one "err" answer (the repaired reader turns every one into DiffXParseError)',
     'object-model clauses (error family, stream closed) are checked directly on the implementation (the DOM loader is modelled in Properties/C05)',
